@@ -55,7 +55,7 @@ func (r *Runner) envTx(msg sdk.Msg) (abci.ResponseDeliverTx, error) {
 }
 
 // GovExec handles a GOVEXEC line inside the open block.
-func (r *Runner) GovExec(n int, ms []script.Msg) error {
+func (r *Runner) GovExec(n int, vote string, ms []script.Msg) error {
 	var msgs []sdk.Msg
 	for _, m := range ms {
 		msg, err := r.BuildMsg(m)
@@ -86,12 +86,16 @@ func (r *Runner) GovExec(n int, ms []script.Msg) error {
 		return err
 	}
 	item.proposal = sr.ProposalId
-	vote, err := r.envTx(govv1.NewMsgVote(r.ValAddr, sr.ProposalId, govv1.OptionYes, ""))
+	opt, ok := map[string]govv1.VoteOption{"yes": govv1.OptionYes, "no": govv1.OptionNo, "veto": govv1.OptionNoWithVeto, "abstain": govv1.OptionAbstain}[vote]
+	if !ok {
+		return fmt.Errorf("GOVEXEC %d: unknown vote %q", n, vote)
+	}
+	vres, err := r.envTx(govv1.NewMsgVote(r.ValAddr, sr.ProposalId, opt, ""))
 	if err != nil {
 		return err
 	}
-	if vote.Code != 0 {
-		return fmt.Errorf("GOVEXEC %d: vote rejected: %s", n, vote.Log)
+	if vres.Code != 0 {
+		return fmt.Errorf("GOVEXEC %d: vote rejected: %s", n, vres.Log)
 	}
 	return nil
 }
@@ -110,6 +114,8 @@ func (r *Runner) govResults() ([]string, error) {
 			case p.Status == govv1.StatusPassed:
 				class = "ok"
 			case p.Status == govv1.StatusFailed:
+			case p.Status == govv1.StatusRejected: // voted down, vetoed (deposit burned) or abstained from: no message ran
+				class = "rejected"
 			default:
 				return nil, fmt.Errorf("GOVEXEC %d: proposal %d not tallied in this EndBlock (status %s)", it.n, it.proposal, p.Status)
 			}
